@@ -226,7 +226,7 @@ func (sr *SelectRelation) Materialize(aggRunner *AggRunner, catDir *catalog.Dire
 		removalBitmap := make([]bool, totalLength) // true means we ditch the value, default is keep
 		for _, name := range outputColumnSeries.GetColumnNames() {
 			if sp, ok := sr.StaticPredicates[name]; ok {
-				iCol := outputColumnSeries.GetColumn(name)
+				iCol := widenIntegerColumn(outputColumnSeries.GetColumn(name))
 				switch col := iCol.(type) {
 				case []float32:
 					if sp.ContentsEnum.IsSet(EQUALITY) {
@@ -619,6 +619,34 @@ func (sr *SelectRelation) Materialize(aggRunner *AggRunner, catDir *catalog.Dire
 	}
 
 	return outputColumnSeries, nil
+}
+
+// widenIntegerColumn returns the integer column types that have no case of their own in the
+// predicate evaluation (int8, int16 and the unsigned types) as []int64, other columns unchanged.
+func widenIntegerColumn(iCol interface{}) interface{} {
+	switch col := iCol.(type) {
+	case []int8:
+		return toInt64s(col)
+	case []int16:
+		return toInt64s(col)
+	case []uint8:
+		return toInt64s(col)
+	case []uint16:
+		return toInt64s(col)
+	case []uint32:
+		return toInt64s(col)
+	case []uint64:
+		return toInt64s(col)
+	}
+	return iCol
+}
+
+func toInt64s[T int8 | int16 | uint8 | uint16 | uint32 | uint64](col []T) []int64 {
+	out := make([]int64, len(col))
+	for i, v := range col {
+		out[i] = int64(v)
+	}
+	return out
 }
 
 func (sr *SelectRelation) Explain() string {
